@@ -491,14 +491,102 @@ theorem recsOK_mid_sum : ∀ (rpre : List LR) (lpre : List (List SegDesc)) (r : 
       simp only [List.cons_append, recsOK, Bool.and_eq_true] at h
       exact ih ls r ds rpost lpost (by simpa using hlen) h.2
 
+/-! ### the reads of the loop stay inside the visible records of the record -/
+
+theorem absRead_touched (off len : Int) (all : Bool) (a : LoopSt) (data : Bytes) (rd : Nat × Nat) :
+    ∀ t ∈ (absRead off len all a data rd).touched, t ∈ a.touched ∨ t = rd := by
+  intro t ht
+  unfold absRead at ht
+  split at ht
+  · split at ht
+    · simp only [List.mem_append, List.mem_singleton] at ht; exact ht
+    · simp only [List.mem_append, List.mem_singleton] at ht; exact ht
+  · exact Or.inl ht
+
+theorem segLen_ge (d : SegDesc) : 4 + d.n + d.padBytes.length ≤ d.segLen := by
+  unfold SegDesc.segLen; omega
+
+theorem absLoop_touched (off len : Int) (all : Bool) :
+    ∀ (ss : List TSeg) (s : TSeg) (vr : VR) (p : Nat) (a res : LoopSt) (r lo : Nat),
+      vr.pos + 4 ≤ p → vr.pos + vr.len = p + s.d.segLen + r → segsWF r s.last ss → lo ≤ vr.pos →
+      (∀ t ∈ a.touched, lo ≤ t.1 ∧ t.1 + t.2 ≤ vr.pos + vr.len) →
+      absLoop off len all vr p (s :: ss) a = some res →
+      ∀ t ∈ res.touched, lo ≤ t.1 ∧ t.1 + t.2 ≤ recEnd (vr.pos + vr.len) p (s :: ss) := by
+  intro ss
+  induction ss with
+  | nil =>
+    intro s vr p a res r lo h1 h2 W hlo ha habs t ht
+    simp only [absLoop] at habs
+    have hsl := segLen_ge s.d
+    cases hl : s.last
+    · simp [hl] at habs
+    · simp only [hl, if_true, Option.some.injEq] at habs
+      subst habs
+      simp only [recEnd, hl, if_true]
+      rcases absRead_touched _ _ _ _ _ _ t ht with h | h
+      · exact ha t h
+      · subst h; simp only []; omega
+  | cons s' ss' ih =>
+    intro s vr p a res r lo h1 h2 W hlo ha habs t ht
+    simp only [absLoop] at habs
+    have hsl := segLen_ge s.d
+    have hrd : ∀ t ∈ (absRead off len all a s.data (p + 4, s.d.n + s.d.padBytes.length)).touched,
+        lo ≤ t.1 ∧ t.1 + t.2 ≤ vr.pos + vr.len := by
+      intro t ht
+      rcases absRead_touched _ _ _ _ _ _ t ht with h | h
+      · exact ha t h
+      · subst h; simp only []; omega
+    cases hl : s.last
+    · simp only [hl, Bool.false_eq_true, if_false] at habs
+      simp only [recEnd, hl, Bool.false_eq_true, if_false]
+      obtain ⟨hn, h16, hf, hm⟩ := W
+      cases hv : s'.d.vr with
+      | some L =>
+        rw [hv] at habs hm
+        simp only [] at habs ⊢
+        obtain ⟨hr, hL1, hL2, hL3, hW⟩ := hm
+        refine ih s' ⟨p + s.d.segLen, L⟩ (p + s.d.segLen + 4) _ res (L - (4 + s'.d.segLen)) lo (by simp)
+          (by simp only []; omega) hW (by simp only []; omega) ?_ habs t ht
+        intro t ht
+        simp only [List.mem_append, List.mem_cons, List.not_mem_nil, or_false] at ht
+        rcases ht with h | h | h
+        · have := hrd t h; simp only []; omega
+        · subst h; simp only []; omega
+        · subst h; simp only []; omega
+      | none =>
+        rw [hv] at habs hm
+        simp only [] at habs ⊢
+        obtain ⟨hr, hle, hW⟩ := hm
+        refine ih s' vr (p + s.d.segLen) _ res (r - s'.d.segLen) lo (by omega) (by omega) hW hlo ?_ habs t ht
+        intro t ht
+        simp only [List.mem_append, List.mem_cons, List.not_mem_nil, or_false] at ht
+        rcases ht with h | h
+        · exact hrd t h
+        · subst h; simp only []; omega
+    · simp only [hl, if_true, Option.some.injEq] at habs
+      subst habs
+      simp only [recEnd, hl, if_true]
+      exact hrd t ht
+
+theorem touched_init (e1 e2 vl seg r' : Nat) (g1 : e1 + 4 ≤ e2) (g2 : e1 + vl = e2 + seg + r') (g3 : 16 ≤ seg)
+    (g4 : 20 ≤ vl) :
+    ∀ t ∈ [(e1, 4), (e2, 4)], e1 ≤ t.1 ∧ t.1 + t.2 ≤ (VR.mk e1 vl).pos + (VR.mk e1 vl).len := by
+  intro t ht
+  simp only [List.mem_cons, List.not_mem_nil, or_false] at ht
+  rcases ht with h | h <;> subst h <;> dsimp only <;> omega
+
 /-! ### a fetch on an encoded file -/
 
 theorem fetch_flat (sul : SULW) (pre post : List TSeg) (s : TSeg) (hs : sul.conformant = true)
     (W : segsWF 0 true (pre ++ s :: post)) (hlast : ∃ x ∈ s :: post, x.last = true) (off : Nat) (len : Int) :
-    ∃ vl res, absLoop (off : Int) len ((off : Int) == 0 && decide (len < 0)) ⟨(entryAfter pre s.d).1, vl⟩
+    ∃ res, absLoop (off : Int) len ((off : Int) == 0 && decide (len < 0)) ⟨(entryAfter pre s.d).1, entryVrLen pre s.d⟩
           (entryAfter pre s.d).2 (s :: post) ⟨[], 0, 0, [((entryAfter pre s.d).1, 4), ((entryAfter pre s.d).2, 4)]⟩ = some res ∧
       fetch (encodeSUL sul ++ (pre ++ s :: post).flatMap TSeg.bytes) ⟨(entryAfter pre s.d).1, (entryAfter pre s.d).2, off, len⟩
-        = .ok ⟨res.out, res.touched⟩ := by
+        = .ok ⟨res.out, res.touched⟩ ∧
+      ∃ r', (entryAfter pre s.d).1 + 4 ≤ (entryAfter pre s.d).2 ∧
+        (entryAfter pre s.d).1 + entryVrLen pre s.d = (entryAfter pre s.d).2 + s.d.segLen + r' ∧ 16 ≤ s.d.segLen ∧
+        20 ≤ entryVrLen pre s.d ∧
+        segsWF r' s.last post := by
   generalize hb : encodeSUL sul ++ (pre ++ s :: post).flatMap TSeg.bytes = b
   have w0 : Walk b 80 0 0 0 (pre ++ s :: post) true := hb ▸ Walk.start sul _ hs W
   obtain ⟨r1, nf1, w1⟩ := Walk.nav pre 80 0 0 0 true w0
@@ -517,7 +605,15 @@ theorem fetch_flat (sul : SULW) (pre post : List TSeg) (s : TSeg) (hs : sul.conf
     obtain ⟨res, hres⟩ := absLoop_some (off : Int) len ((off : Int) == 0 && decide (len < 0)) (s :: post) hlast
       ⟨(walkEnd 80 0 0 pre).1, L⟩ ((walkEnd 80 0 0 pre).1 + 4)
       ⟨[], 0, 0, [((walkEnd 80 0 0 pre).1, 4), ((walkEnd 80 0 0 pre).1 + 4, 4)]⟩
-    refine ⟨L, res, hres, ?_⟩
+    have hgeo : ∃ r', (walkEnd 80 0 0 pre).1 + 4 ≤ (walkEnd 80 0 0 pre).1 + 4 ∧
+        (walkEnd 80 0 0 pre).1 + L = (walkEnd 80 0 0 pre).1 + 4 + s.d.segLen + r' ∧ 16 ≤ s.d.segLen ∧ 20 ≤ L ∧
+        segsWF r' s.last post := by
+      have h5 := I.p5; have h3 := I.p3; have hl := A.len
+      simp only [hpos] at h5 h3
+      exact ⟨r', Nat.le_refl _, by omega, h16, h3, W'⟩
+    have hvl : entryVrLen pre s.d = L := by unfold entryVrLen; rw [hv]
+    rw [hvl]
+    refine ⟨res, hres, ?_, hgeo⟩
     have hfuel : post.length < b.length + 1 := by
       have h1 := length_le_flatMap_bytes post
       have h2 : (b.drop h.pos).length ≤ b.length := by simp
@@ -545,7 +641,15 @@ theorem fetch_flat (sul : SULW) (pre post : List TSeg) (s : TSeg) (hs : sul.conf
     obtain ⟨res, hres⟩ := absLoop_some (off : Int) len ((off : Int) == 0 && decide (len < 0)) (s :: post) hlast
       ⟨(walkEnd 80 0 0 pre).2.1, (walkEnd 80 0 0 pre).2.2⟩ ((walkEnd 80 0 0 pre).1)
       ⟨[], 0, 0, [((walkEnd 80 0 0 pre).2.1, 4), ((walkEnd 80 0 0 pre).1, 4)]⟩
-    refine ⟨(walkEnd 80 0 0 pre).2.2, res, hres, ?_⟩
+    have hgeo : ∃ r', (walkEnd 80 0 0 pre).2.1 + 4 ≤ (walkEnd 80 0 0 pre).1 ∧
+        (walkEnd 80 0 0 pre).2.1 + (walkEnd 80 0 0 pre).2.2 = (walkEnd 80 0 0 pre).1 + s.d.segLen + r' ∧ 16 ≤ s.d.segLen ∧
+        20 ≤ (walkEnd 80 0 0 pre).2.2 ∧ segsWF r' s.last post := by
+      have h5 := I.p5; have h3 := I.p3; have h2 := I.p2; have hl := A.len
+      simp only [hpos] at h5 h3 h2
+      exact ⟨r', h2, by omega, h16, h3, W'⟩
+    have hvl : entryVrLen pre s.d = (walkEnd 80 0 0 pre).2.2 := by unfold entryVrLen; rw [hv]
+    rw [hvl]
+    refine ⟨res, hres, ?_, hgeo⟩
     have hfuel : post.length < b.length + 1 := by
       have h1 := length_le_flatMap_bytes post
       have h2 : (b.drop h.pos).length ≤ b.length := by simp
